@@ -228,6 +228,7 @@ pub fn convolution_apply_dft<R, A, B, BE>(
     let min_size: usize = res_size.min(bound);
     let offset: usize = cnv_offset.min(bound);
 
+    let res_cols: usize = res.cols();
     let dst: &mut [f64] = res.raw_mut();
     let a_raw: &[f64] = a.raw();
     let b_raw: &[f64] = b.raw();
@@ -238,7 +239,10 @@ pub fn convolution_apply_dft<R, A, B, BE>(
     let b_offset: usize = b_size * 8;
     for blk_i in 0..m / 4 {
         BE::reim4_convolution(tmp, min_size, offset, &a_raw[a_idx..], a_size, &b_raw[b_idx..], b_size);
-        BE::reim4_save_1blk_contiguous(m, min_size, blk_i, dst, tmp);
+        // Limb j of column res_col starts at n * (j * res_cols + res_col).
+        for j in 0..min_size {
+            BE::reim4_save_1blk_contiguous(m, 1, blk_i, &mut dst[n * (j * res_cols + res_col)..], &tmp[8 * j..]);
+        }
         a_idx += a_offset;
         b_idx += b_offset;
     }
@@ -296,6 +300,7 @@ pub fn convolution_pairwise_apply_dft<R, A, B, BE>(
     let min_size: usize = res_size.min(bound);
     let offset: usize = cnv_offset.min(bound);
 
+    let res_cols: usize = res.cols();
     let res_raw: &mut [f64] = res.raw_mut();
     let a_raw: &[f64] = a.raw();
     let b_raw: &[f64] = b.raw();
@@ -321,7 +326,10 @@ pub fn convolution_pairwise_apply_dft<R, A, B, BE>(
         BE::reim_add(tmp_b, &b0[..b_row_size], &b1[..b_row_size]);
 
         BE::reim4_convolution(tmp_res, min_size, offset, tmp_a, a_size, tmp_b, b_size);
-        BE::reim4_save_1blk_contiguous(m, min_size, blk_i, res_raw, tmp_res);
+        // Limb j of column res_col starts at n * (j * res_cols + res_col).
+        for j in 0..min_size {
+            BE::reim4_save_1blk_contiguous(m, 1, blk_i, &mut res_raw[n * (j * res_cols + res_col)..], &tmp_res[8 * j..]);
+        }
 
         a0_idx += a_row_size;
         a1_idx += a_row_size;
